@@ -791,6 +791,29 @@ def check(ctx):
             ctx.ob("R01.1", cname, True, found=pattern, required="RI1-RI4", mod=mod, node=c)
     check_scanning_ctors(ctx)
     nup = check_upgrades(ctx)
+    # boxes are one-box diagrams: the dagger of every concrete box class is typed cod -> dom (abstract construction, shared with C02)
+    from .c02 import check_daggers
+    ctx.rule("R01.5", "the dagger of every concrete box class binds and is typed cod -> dom (generic instance of each class, constructed and daggered abstractly)")
+    ndg = check_daggers(ctx, rule="R01.5", kinds=("types", "not-a-box"))
+    ctx.floor("R01.5", 30)
+    # the refusal guards (R01.2 / R01.3) compare types with == : equality of objects and types must be structural (decided by C03)
+    from ..core import Ctx
+    from . import c03
+    ctx.rule("R01.6", "equality of objects and types, which every composition guard relies on, is structural (C03 on the Ob / Ty classes)")
+    sub = Ctx("C03", m, ctx.tier)
+    c03.check(sub)
+    tycls = [c for c in m.classes.values() if any(k.q in ("discopy.cat.Ob", "discopy.monoidal.Ty") for k in m.mro(c))]
+    n6 = 0
+    for c in sorted(tycls, key=lambda c: c.q):
+        mine = [o for o in sub.obs if o.construct.startswith(c.q + ".__eq__") or o.construct.startswith(c.q + ".__hash__")]
+        if not mine:
+            continue
+        bad = [o for o in mine if not o.ok]
+        n6 += 1
+        ctx.ob("R01.6", c.q + ":equality", not bad, found=["%s %s: %s" % (o.rule, o.construct, str(o.found)[:80]) for o in bad][:2] or "%d obligations of C03 discharged" % len(mine),
+               required="two objects / types are equal only if they agree on every field that distinguishes wires (name, winding, dimension, …)", mod=c.mod, node=c.node,
+               sig="type-eq:" + ",".join(sorted({o.construct.rsplit(":", 1)[-1] for o in bad})))
+    ctx.need(n6 >= 3 and not sub.broken, "C03 did not decide the equality of at least 3 object / type classes (%d)" % n6)
     ctx.floor("R01.0", 20)
     ctx.floor("R01.1", 18)
     ctx.floor("R01.2", 9)
